@@ -181,7 +181,8 @@ type subState struct {
 	credited [4]int64
 	usage    [4]int64 // online volume reported in completed update/release requests
 	cost     [4]int64
-	notify   string // path of the notification URI registered by the latest successful create
+	events   []*sess // one-time events (a record each, no session)
+	notify   string  // path of the notification URI registered by the latest successful create
 	creates  int
 }
 
@@ -413,6 +414,22 @@ func (w *World) Exec(op Op) *Result {
 			se.ref, se.live, se.createReq = refOf(res.Location), true, req
 			st.sess = append(st.sess, se)
 			res.Sess = se
+		}
+	case "event":
+		// a one-time event (immediate event charging): a create that opens no session and leaves one closed record
+		chargingIDSeq++
+		se := &sess{chargingID: chargingIDSeq, name: "smf", lastGrant: map[int32]int32{}}
+		units, recs, _ := w.buildUnits(op, nil, true)
+		req := models.ChfConvergedChargingChargingDataRequest{SubscriberIdentifier: st.supi, ChargingId: se.chargingID,
+			NfConsumerIdentification: &models.ChfConvergedChargingNfIdentification{NFName: "smf", NodeFunctionality: "SMF"},
+			InvocationTimeStamp:      &now, InvocationSequenceNumber: isn, MultipleUnitUsage: units, OneTimeEvent: true, OneTimeEventType: models.OneTimeEventType_IEC}
+		body, _ := json.Marshal(req)
+		code, rb, hd := doHTTP("POST", prefix+"/chargingdata", body, nil)
+		res.Status, res.Body, res.Location, res.Req, res.Path = code, rb, hd.Get("Location"), logicalReq(st.supi, &req), prefix+"/chargingdata"
+		res.ReqWire = &req
+		if code == http.StatusCreated {
+			se.conts = recs
+			st.events = append(st.events, se)
 		}
 	case "update", "release":
 		lv := st.live()
